@@ -57,19 +57,19 @@ type deferred struct {
 }
 
 type State struct {
-	Frames []*Frame
-	Heap   map[int]*HObj
-	next   int
-	Tapes  []*Tape
-	Status int
-	Ret    Val
-	NeedT  int
-	NeedP  int
-	Msg    string
-	Steps  int
-	Trace  []string // revealed symbols so far, for witnesses (not part of the key)
-	Notes  map[string]bool
-	Path   []string // decided atoms ("<atom>=T/F") of forks on named conditions
+	Frames  []*Frame
+	Heap    map[int]*HObj
+	next    int
+	Tapes   []*Tape
+	Status  int
+	Ret     Val
+	NeedT   int
+	NeedP   int
+	Msg     string
+	Steps   int
+	Trace   []string // revealed symbols so far, for witnesses (not part of the key)
+	Notes   map[string]bool
+	Path    []string // decided atoms ("<atom>=T/F") of forks on named conditions
 	Globals map[*ssa.Global]int
 	Effects []string // ordered side effects recorded by hooks
 }
@@ -77,30 +77,30 @@ type State struct {
 type HookFn func(m *Machine, st *State, call *ssa.CallCommon, args []Val) (alts []Val, handled bool)
 
 type Machine struct {
-	P         *Prog
-	Alpha     *Alphabet
-	Hooks     map[string]HookFn
-	AbsAppend bool
-	MaxExact  int
-	StepLimit int
-	Curs      *cursorInfo
-	live      map[*ssa.Function]*liveInfo
-	fnIdx     map[*ssa.Function]int
+	P          *Prog
+	Alpha      *Alphabet
+	Hooks      map[string]HookFn
+	AbsAppend  bool
+	MaxExact   int
+	StepLimit  int
+	Curs       *cursorInfo
+	live       map[*ssa.Function]*liveInfo
+	fnIdx      map[*ssa.Function]int
 	InvokeHook func(m *Machine, st *State, call *ssa.CallCommon, recv Val, args []Val) ([]Val, bool)
-	OnAppend  func(st *State, site ssa.Instruction, slice Val, elems []Val)
-	OnStore   func(st *State, site *ssa.Store, addr Ptr, v Val)
-	skipInit  func(fn *ssa.Function) bool
+	OnAppend   func(st *State, site ssa.Instruction, slice Val, elems []Val)
+	OnStore    func(st *State, site *ssa.Store, addr Ptr, v Val)
+	skipInit   func(fn *ssa.Function) bool
 	// MergeAtRange: before forking over the iteration orders of a map, drop the state when an
 	// identical one (canonical key, effects) has already reached the same instruction in this Run.
-	MergeAtRange bool
-	RangeCover   map[*ssa.Range]int // largest map each range instruction was interpreted on
-	rangeSeen    map[string]bool
-	AltFilter func(st *State, v Val) Val // applied to the alternative a fork takes
-	ExtGlobals map[string]Val           // values of package-level variables outside the repository (io.EOF, ...)
-	NoExactConcat bool                  // tape mode: string concatenation keeps only emptiness
-	ReadFields map[*types.Struct]map[int]bool // when set: struct fields never read by the interpreted code are ignored in state keys
-	OnConcat  func(st *State, site *ssa.BinOp, a, b Val)
-	Stuck     map[string]int
+	MergeAtRange  bool
+	RangeCover    map[*ssa.Range]int // largest map each range instruction was interpreted on
+	rangeSeen     map[string]bool
+	AltFilter     func(st *State, v Val) Val     // applied to the alternative a fork takes
+	ExtGlobals    map[string]Val                 // values of package-level variables outside the repository (io.EOF, ...)
+	NoExactConcat bool                           // tape mode: string concatenation keeps only emptiness
+	ReadFields    map[*types.Struct]map[int]bool // when set: struct fields never read by the interpreted code are ignored in state keys
+	OnConcat      func(st *State, site *ssa.BinOp, a, b Val)
+	Stuck         map[string]int
 }
 
 func NewMachine(p *Prog, alpha *Alphabet) *Machine {
@@ -2144,7 +2144,6 @@ func (m *Machine) Key(st *State) string {
 	return b.String()
 }
 
-
 // opaqueRun recognises a run of opaque bytes "x[i]", "x[i+1]", ... and names it "x[i:j]".
 func opaqueRun(elems []Val) (string, bool) {
 	if len(elems) == 0 {
@@ -2240,7 +2239,6 @@ func (m *Machine) linop(st *State, op token.Token, a, b Val) (Val, bool) {
 	return nil, false
 }
 
-
 // InitPackages runs the init functions of the given repository packages on st
 // (which must have no frames), so that package-level tables have their
 // initial values. Init functions of other packages are skipped.
@@ -2286,7 +2284,6 @@ func (m *Machine) InitPackages(st *State, pkgs ...string) string {
 	}
 	return ""
 }
-
 
 func permutations(n int) [][]int {
 	if n == 0 {
